@@ -38,6 +38,8 @@ FALSE = z3.BoolVal(False)
 
 def simplest_fraction(v: float, single=False) -> Fraction:
     """the simplest rational that rounds to the float v (float32 rounding when single) (DESIGN 3.3.2)"""
+    if isinstance(v, (np.floating, np.integer)):
+        v = v.item()          # numpy scalars print as np.float64(...)
     if v != v or v in (float("inf"), float("-inf")):
         raise Unsupported("nan/inf constant")
     if v == int(v) and abs(v) < 2 ** 53:
